@@ -91,7 +91,10 @@ def run(prog, rep):
     rep.floor("C18-O2", 6)
     # O4
     # helpers inside model_checking.rs are inlined (whole-pipeline view), everything else stays opaque
-    eng = terms.Engine(prog, inline=True, hooks=E.Hooks(["model_checking::"], opaque_names=["model_checking::parse_and_validate"]))
+    import pipelines
+    vplain, _vext = pipelines.validators(prog)
+    vname = vplain.path.rsplit("::", 1)[-1] if vplain is not None else "parse_and_validate"
+    eng = terms.Engine(prog, inline=True, hooks=E.Hooks(["model_checking::"], opaque_names=[vplain.path] if vplain is not None else []))
     f = prog.lib_fn("model_checking::model_check_formula_unsafe_ex")
     std = prog.lib_fn("model_checking::_model_check_multiple_formulae_dirty")
     if f is None or std is None:
@@ -103,7 +106,7 @@ def run(prog, rep):
         formula, graph = ("param", pn[0]), ("param", pn[1])
         where = f"{f.file}:{f.line}"
         evs = s.sites_to("eval_node", deep=True)
-        pvs = s.sites_to("parse_and_validate", deep=True)
+        pvs = s.sites_to(vname, deep=True)
         ok_one = len(evs) == 1 and len(pvs) == 1
         rep.check(ok_one, "C18-O4", "unsafe_ex/shape", where, "one parse_and_validate, one eval_node",
                   f"{len(pvs)} parse_and_validate and {len(evs)} eval_node calls")
@@ -132,7 +135,7 @@ def run(prog, rep):
         # the standard pipeline uses the same validator
         ss = eng.summary(std)
         spn = std.param_names()
-        pv2 = ss.sites_to("parse_and_validate", deep=True)
+        pv2 = ss.sites_to(vname, deep=True)
         rep.check(len(pv2) == 1 and pv2[0].args[0] == ("param", spn[0]) and pv2[0].args[1] == ("param", spn[1]), "C18-O4", "standard/parse",
                   f"{std.file}:{std.line}", "standard pipeline validates with parse_and_validate(formulae, graph)",
                   "standard pipeline does not call parse_and_validate(formulae, graph)")
